@@ -35,7 +35,7 @@ def run(ctx):
     ctx.extra_cov["thresholds_in_source"] = thr
     if thr:
         gen_ops.THRESHOLDS[:] = sorted(set(thr) | set(gen_ops.THRESHOLDS))
-    items = gen_ops.gen_items(r, OPS, ctx.scale(300, 40000), ctx.thorough)
+    items = gen_ops.gen_items(r, OPS, ctx.scale(220, 40000), ctx.thorough)
     lines, meta = ops_common.build_cases(ctx, items, extra_flags=lambda it: [it["flags"] ^ gen_ops.MALACHITE])
 
     def nontrivial(c, a, b):
